@@ -217,6 +217,14 @@ impl<Child: Executor> HashAggregate<Child> {
             } else {
                 DataType::Null
             };
+            // COUNT(*) counts rows; COUNT(expr) counts only the rows where expr is not NULL.
+            let is_star = matches!(agg_expr.arg, None | Some(BoundExpression::Star));
+            if !is_star
+                && matches!(agg_expr.func, AggregateFunction::Count)
+                && matches!(value, DataType::Null)
+            {
+                continue;
+            }
             bucket.accumulators[i].accumulate(&value)?;
         }
 
